@@ -1,3 +1,7 @@
+# NOTE: props for C24 and C29 live in mir2smt/props_experimental/ (not run by ./check): their E2 parts decide every clause but
+# report three natively reproduced findings as VIOLATION until these keys are listed in /verif/known_findings.json:
+#   C24 c24_deviation_rounded_up_to_grid_or_skipped_at_zero ; C29 c29_out_of_band_on_coarse_or_unequal_grid ; C29 c29_inverted_on_coarse_or_unequal_grid
+# With the keys listed (tested with VERIF_KNOWN_FINDINGS=<copy>) C24 is 410/410, exit 0, KNOWN-FINDING printed, ~3.5 min; then `mv props_experimental/C2{4,9}.py props/`.
 # Proposed claims for the E2 parts of properties whose ./check is not (yet) quiet end-to-end or that are
 # shared with Kani harnesses of other areas.  Not read by gen_manifest; merge by hand (`BOUNDED` as in lib/manifest_data.py).
 PROPOSED = {
